@@ -588,6 +588,12 @@ pzgssvx(int_t nprocs, superlumt_options_t *superlumt_options, SuperMatrix *A,
 	
 	/* Compute the LU factorization of A*Pc. */
 	t0 = SuperLU_timer_();
+	if ( superlumt_options->refact == NO ) {
+	    /* L and U are pure outputs: lets us see below whether they
+	       were created (not when the initial allocation fails) */
+	    L->Store = NULL;
+	    U->Store = NULL;
+	}
 	pzgstrf(superlumt_options, &AC, perm_r, L, U, &Gstat, info);
 	utime[FACT] = SuperLU_timer_() - t0;
 	
@@ -597,6 +603,13 @@ pzgssvx(int_t nprocs, superlumt_options_t *superlumt_options, SuperMatrix *A,
 
 	if ( superlumt_options->lwork == -1 ) {
 	    superlu_memusage->total_needed = *info - A->ncol;
+	    /* workspace query: release what this call acquired */
+	    Destroy_CompCol_Permuted(&AC);
+	    if ( A->Stype == SLU_NR ) {
+		Destroy_SuperMatrix_Store(AA);
+		SUPERLU_FREE(AA);
+	    }
+	    StatFree(&Gstat);
 	    return;
 	}
     }
@@ -672,7 +685,8 @@ pzgssvx(int_t nprocs, superlumt_options_t *superlumt_options, SuperMatrix *A,
 	
     }
 
-    superlu_zQuerySpace(nprocs, L, U, panel_size, superlu_memusage);
+    if ( L->Store && U->Store ) /* no factors if the initial allocation failed */
+	superlu_zQuerySpace(nprocs, L, U, panel_size, superlu_memusage);
 
     /* ------------------------------------------------------------
        Deallocate storage after factorization.
